@@ -154,7 +154,7 @@ def _run_pipeline(om, mod):
         signal.signal(signal.SIGALRM, old)
 
 
-def _apply(om, mod, tag):
+def _apply(om, mod, tag, n_generics=1):
     try:
         _run_pipeline(om, mod)
     except _PassTimeout:
@@ -166,9 +166,9 @@ def _apply(om, mod, tag):
     except Exception as e:
         raise Violation(f"{tag}:invalid-ir-after-pass", dict(error=repr(e)[:400], ir=C.to_text(mod)[:3000]))
     gens = _generics(mod)
-    if len(gens) != 1:
+    if len(gens) != n_generics:
         raise Violation(f"{tag}:generic-op-count-changed", dict(count=len(gens)))
-    return gens[0]
+    return gens[-1]
 
 
 def _vectors(widths, r, n_derived=192):
@@ -262,20 +262,29 @@ def prop_l2k(r):
         raise Outside("yielded value type differs from the output element type")
 
     text = G.l2k_text(r)
+    sib = r.get("sib") if (r.get("env") is None and not r.get("caps")) else None
+    if sib:
+        # a second generic (a kernel's canonical body over the same buffers) in front of the one under test
+        t2 = G.l2k_text(sib)
+        g2 = t2[t2.index("linalg.generic"): t2.rindex("}")].rstrip()
+        i = text.index("linalg.generic")
+        text = text[:i] + g2 + "\n" + text[i:]
     om, mod = _build(text, "convert-linalg-to-kernel")
-    gen0 = _generics(mod)[0]
+    gen0 = _generics(mod)[-1]
     captured = _captured_values(mod, gen0, r)  # the same SSA values before and after the pass: further free inputs of the body
     before = E.program_from_block(gen0.body.block, captured)
     if before.struct() != rp.struct():
         raise AssertionError("builder produced a body different from the recipe")  # harness error
 
-    gen = _apply(om, mod, "linalg-to-kernel")
+    gen = _apply(om, mod, "linalg-to-kernel", n_generics=2 if sib else 1)
     after = E.program_from_block(gen.body.block, captured)
 
     kinds = before.kinds()
     has_kseq = any(len(argw) == n and kinds == seq for n, seq in G.KSEQ.values())
     cls = [f"gen:{r.get('mode', '?').split(':')[0]}", f"ops:{len(kinds)}", f"args:{len(argw)}",
            "widths:mixed" if len(set(argw)) > 1 else "widths:uniform", "kseq:yes" if has_kseq else "kseq:no"]
+    if sib:
+        cls.append("canonical-sibling-in-front")
     if r.get("mode", "").startswith(("canonical", "near", "seq")):
         cls.append("aim:" + r["mode"].split(":")[1])
     if env is not None:
